@@ -119,6 +119,11 @@ func c05Ctx(env *c05Env) *plush.Context {
 		env.calls++
 		return nil, env.sentinel
 	})
+	ctx.Set("failunk", func(id string) (interface{}, error) {
+		env.calls++
+		env.sentinel = &plush.ErrUnknownIdentifier{ID: "fromHelper"}
+		return nil, env.sentinel
+	})
 	ctx.Set("zero", func(id string) int { env.calls++; return 0 })
 	ctx.Set("big", func(id string) int { env.calls++; return 99 })
 	ctx.Set("val", func(id string, v interface{}) interface{} { env.calls++; return v })
@@ -147,6 +152,10 @@ func c05Ctx(env *c05Env) *plush.Context {
 		return template.HTML(s), err
 	})
 	ctx.Set("partialFeeder", func(n string) (string, error) {
+		if n == "unk" {
+			env.calls++ // the instrumented fault: a partial whose text uses an undefined name
+			return "u<%= undefinedInPartial %>", nil
+		}
 		if s, ok := env.partials[n]; ok {
 			return s, nil
 		}
@@ -169,6 +178,9 @@ var c05Faults = []struct {
 	{"bad-argument-type", `ci(val("p", "str"))`, false},
 	{"missing-member", `val("p", tt).Nope`, false},
 	{"call-non-function", `two(val("p", 1), 2)()`, false},
+	// errors whose chain contains an unknown-identifier error are still failures
+	{"helper-returns-unknown-identifier-error", `failunk("p")`, true},
+	{"partial-with-unknown-identifier", `partial("unk")`, false},
 }
 
 func c05One(b *core.B, class, tmpl, faultName string, wantSentinel bool, body string) {
